@@ -2,6 +2,7 @@
 package vtime
 
 import (
+	"runtime"
 	"time"
 
 	vrt "verif/rt"
@@ -44,3 +45,32 @@ func (t *Timer) Stop() bool {
 	t.stopped = true
 	return was
 }
+
+// ---- the number of processors is an answer of the environment: many (the default) or one; asked any number of
+// times, an execution gets one answer
+
+var procsOf *vrt.Sched
+var procs int
+
+func processors() int {
+	s := vrt.Current()
+	if s == nil {
+		return runtime.GOMAXPROCS(0)
+	}
+	if s != procsOf {
+		procsOf = s
+		procs = []int{8, 1}[vrt.Choose("processors", 2)]
+	}
+	return procs
+}
+
+// GOMAXPROCS stands in for runtime.GOMAXPROCS (queries only; a call that sets the value is passed on).
+func GOMAXPROCS(n int) int {
+	if n > 0 {
+		return runtime.GOMAXPROCS(n)
+	}
+	return processors()
+}
+
+// NumCPU stands in for runtime.NumCPU.
+func NumCPU() int { return processors() }
